@@ -81,6 +81,18 @@ def apply_op(g, op):
         other = m.mulgrid(convention=g.convention, atmos_type=g.atmosphere_type)
         for (nm, b, c, t) in op[1]: other.add_layer(m.layer(nm, float(b), float(c), float(t)))
         g.copy_layers_from(other)
+    elif k == 'cg':
+        # copy_layers_from ANOTHER LIVE geometry, which stays alive (and must stay what it is) for the rest of the sequence
+        other = M().mulgrid().rectangular([10., 10.], [10., 10.], [float(t) for t in op[1]], convention=g.convention, atmos_type=g.atmosphere_type)
+        g.copy_layers_from(other)
+        g._c10_other = other
+        g._c10_other_dump = dump(other)
+    elif k == 'ot':
+        # a vertical translate of the other live geometry: the edited geometry must stay what it is
+        other = getattr(g, '_c10_other', None)
+        if other is not None:
+            other.translate([0., 0., float(op[1])])
+            g._c10_other_dump = dump(other)
     elif k == 'sn': g.snap_columns_to_layers(float(op[1]), list(op[2]))
     elif k == 'sr': g.snap_columns_to_nearest_layers(list(op[1]))
     elif k == 'fs':
@@ -127,6 +139,8 @@ def encode_op(op):
     if k == 'de': return 'de,%s,%s,%s' % (names(op[1]), '.'.join(':'.join(str(i) for i in l) for l in op[2]), keys(op[3]))
     if k == 'ry': return 'ry,%s,%d' % (names(op[1]), op[2])
     if k == 'cl': return 'cl' + ''.join(',%s,%s,%s,%s' % (hx(n), qs(b), qs(c), qs(t)) for (n, b, c, t) in op[1])
+    if k == 'cgm': return 'cl' + ''.join(',%s,%s,%s,%s' % (hx(n), qs(b), qs(c), qs(t)) for (n, b, c, t) in op[1])   # for the model: copy_layers_from
+    if k == 'ot': return 'tl,0,0,0'                                       # the other geometry moves: nothing happens to this one
     if k == 'sn': return 'sn,%s,%s' % (qs(op[1]), names(op[2]))
     if k == 'sr': return 'sr,%s' % names(op[1])
     if k == 'fs': return 'fs,%s,%s,%s' % (names(op[1]), '.'.join(qs(z) for z in op[2]), qs(op[3]))       # op[2]: the fitted elevations (hint)
@@ -142,7 +156,7 @@ OP_METHOD = {'an': 'add_node', 'dn': 'delete_node', 'ac': 'add_column', 'dc': 'd
              'ss': 'set_surface', 'nl': 'set_column_num_layers', 'sb': 'setup_block_name_index',
              'sk': 'setup_block_connection_name_index', 'cf': 'check', 'rd': 'reduce', 'rf': 'refine', 'tr': 'triangulate_column',
              'de': 'decompose_columns', 'ry': 'refine_layers', 'cl': 'copy_layers_from', 'sn': 'snap_columns_to_layers',
-             'sr': 'snap_columns_to_nearest_layers', 'fs': 'fit_surface', 'tl': 'translate', 'ro': 'rotate', 'mv': 'rotate'}
+             'sr': 'snap_columns_to_nearest_layers', 'fs': 'fit_surface', 'cg': 'copy_layers_from', 'cgm': 'copy_layers_from', 'ot': 'translate(other geometry)', 'tl': 'translate', 'ro': 'rotate', 'mv': 'rotate'}
 
 
 # ----------------------------------------------------------------------------------------------
@@ -402,6 +416,9 @@ def post_hints(g, op, h):
     if k == 'de': return ('de', list(op[1]), h.get('hs', []), new_keys)
     if k == 'ro': return ('mv', [(n.pos[0], n.pos[1]) for n in g.nodelist], [(c.centre[0], c.centre[1]) for c in g.columnlist])
     if k == 'fs': return ('fs', list(op[1]), list(getattr(g, '_c10_fit', [])), op[3])
+    if k == 'cg':
+        other = getattr(g, '_c10_other', None)
+        return ('cgm', [(l.name, l.bottom, l.centre, l.top) for l in other.layerlist] if other is not None else [])
     return op
 
 
@@ -418,10 +435,13 @@ def failed_hints(g, op, h):
     if k == 'de': return ('de', list(op[1]), h.get('hs', []), new_keys)
     if k == 'ro': return ('mv', [], [])
     if k == 'fs': return ('fs', list(op[1]), list(getattr(g, '_c10_fit', [])), op[3])
+    if k == 'cg':
+        other = getattr(g, '_c10_other', None)
+        return ('cgm', [(l.name, l.bottom, l.centre, l.top) for l in other.layerlist] if other is not None else [])
     return op
 
 
-HINTED = ('cf', 'rd', 'rf', 'de', 'ro', 'fs')
+HINTED = ('cf', 'rd', 'rf', 'de', 'ro', 'fs', 'cg')
 
 
 def apply_op_h(g, op):
@@ -436,6 +456,51 @@ def apply_op_h(g, op):
 
 
 COMPOUND = ('cf', 'rd', 'rf', 'tr', 'de')
+
+
+def other_geometry_defects(g):
+    """the other live geometry of the sequence (the source of copy_layers_from) is still what it was, and consistent"""
+    other = getattr(g, '_c10_other', None)
+    if other is None: return []
+    out = []
+    if dump(other) != getattr(g, '_c10_other_dump', None): out.append('the geometry the layers were copied from has changed although it was not edited')
+    bad = inv_classes(other)
+    if bad: out.append('the geometry the layers were copied from is no longer consistent: %s' % '; '.join('%s: %s' % (k, v[0]) for k, v in sorted(bad.items())))
+    return out
+
+
+def stripped_collisions(g):
+    """groups of column / node / layer names that become equal once padding is stripped (what a file round trip does)"""
+    out = []
+    for kind, lst in (('column', g.columnlist), ('node', g.nodelist), ('layer', g.layerlist)):
+        seen = {}
+        for o in lst: seen.setdefault(o.name.strip(), []).append(o.name)
+        out += [(kind, tuple(v)) for v in seen.values() if len(v) > 1]
+    return out
+
+
+def round_trip_defects(g):
+    """write the geometry to a file and read it back: the same numbers of nodes, columns, connections, layers; a consistent
+    object graph"""
+    import tempfile, os
+    fd, path = tempfile.mkstemp(prefix='c10-rt-', suffix='.dat')
+    os.close(fd)
+    try:
+        g.write(path)
+        h = M().mulgrid(path)
+    finally:
+        try: os.remove(path)
+        except OSError: pass
+    out = []
+    for what, a, b in (('nodes', len(g.nodelist), len(h.nodelist)), ('columns', len(g.columnlist), len(h.columnlist)),
+                       ('connections', len(g.connectionlist), len(h.connectionlist)), ('layers', len(g.layerlist), len(h.layerlist))):
+        if a != b: out.append('%d %s in memory, %d after write + read' % (a, what, b))
+    bad = inv_classes(h)
+    for k in ('lookup', 'connection-keys', 'node-columns', 'column-connections', 'neighbours', 'connection-nodes', 'polygon'):
+        if k in bad: out.append('after write + read: %s: %s' % (k, bad[k][0]))
+    orph = [n.name for n in h.orphans]
+    if orph and not g.orphans: out.append('after write + read: orphan nodes %s' % sorted(orph)[:4])
+    return out
 
 
 def layers_descend(g):
